@@ -95,7 +95,7 @@ func init() {
 	register(&Rule{
 		Name:  "OPT-schemetable",
 		Doc:   "the package-level scheme table that initialises parserOptions.specialSchemes is read by nothing but the options initialiser: special-scheme tests and default-port elision always consult the table of the parser that made the URL",
-		Props: []string{"C16", "C04"},
+		Props: []string{"C16", "C04", "C19"},
 		Floor: 1,
 		Run: func(c *Ctx, s *core.Sink) {
 			// the globals stored into parserOptions.specialSchemes
